@@ -1,4 +1,800 @@
-//! harness family c07 (stub until the family is built)
+//! harness family c07 — property C07: volume content does not depend on the container format.
+//!
+//! (a1) model-vs-implementation for the shared skew functions (`Block::get_lsecs`, `ts_from_prodos_block`,
+//!      `prodos_block_from_ts`, `cpm_blocking`, `fat_blocking`), including refused and panicking inputs;
+//! (a2) model-vs-implementation for the address map of every container: a distinctive pattern is written
+//!      through `write_block`, then every physical sector (`read_sector`) / the flat image (`to_bytes`) is
+//!      scanned to find where each 128-byte unit landed; the located pieces are compared with the model;
+//! (b)  direct oracle: for every disk kind, every container `mkdsk` can create for it is formatted with the
+//!      same file system (as `mkdsk.rs` does), the same generated history of file operations is applied
+//!      to all of them, then EVERY file-system block, EVERY physical sector and every file is compared
+//!      against the first container.  The clock is pinned by the LD_PRELOAD shim of bin/check.
 use crate::util::*;
+use a2kit::bios::{bpb, dpb, skew};
+use a2kit::fs::{cpm, dos3x, fat, pascal, prodos, Block, DiskFS};
+use a2kit::img::{self, names, DiskImage, DiskKind, TrackLayout};
+use std::collections::HashMap;
 
-pub fn run(_ctx: &mut Ctx) {}
+// ---------------------------------------------------------------------------------------------
+// small helpers
+
+fn dots(xs: &[usize]) -> String { xs.iter().map(|x| x.to_string()).collect::<Vec<_>>().join(".") }
+fn commas(xs: Vec<String>) -> String { if xs.is_empty() { "-".to_string() } else { xs.join(",") } }
+fn errs(e: Box<dyn std::error::Error>) -> String { e.to_string() }
+
+fn blk_tok(b: &Block) -> String {
+    match b {
+        Block::D13([t, s]) => format!("D13 {} {}", t, s),
+        Block::DO([t, s]) => format!("DO {} {}", t, s),
+        Block::PO(b) => format!("PO {}", b),
+        Block::CPM((b, bsh, off)) => format!("CPM {} {} {}", b, bsh, off),
+        Block::FAT((s, n)) => format!("FAT {} {}", s, n),
+    }
+}
+
+/// 128-byte unit `k` of the test pattern: never zero, distinct for distinct `k < 251`
+fn unit(k: usize, salt: usize) -> Vec<u8> { (0..128).map(|j| 1 + ((k * 37 + j + salt) % 251) as u8).collect() }
+fn pattern(len: usize, salt: usize) -> Vec<u8> { (0..len / 128).flat_map(|k| unit(k, salt)).collect() }
+
+/// (names.rs const name, layout) in any order; the protocol uses the name
+fn layouts() -> Vec<(&'static str, TrackLayout, DiskKind)> {
+    vec![
+        ("CPM_1", names::CPM_1, names::IBM_CPM1_KIND),
+        ("AMSTRAD_SS", names::AMSTRAD_SS, names::AMSTRAD_SS_KIND),
+        ("OSBORNE1_SD", names::OSBORNE1_SD, names::OSBORNE1_SD_KIND),
+        ("OSBORNE1_DD", names::OSBORNE1_DD, names::OSBORNE1_DD_KIND),
+        ("TRS80_M2_CPM", names::TRS80_M2_CPM, names::TRS80_M2_CPM_KIND),
+        ("NABU_CPM", names::NABU_CPM, names::NABU_CPM_KIND),
+        ("KAYPROII", names::KAYPROII, names::KAYPROII_KIND),
+        ("KAYPRO4", names::KAYPRO4, names::KAYPRO4_KIND),
+        ("IBM_SSDD_8", names::IBM_SSDD_8, DiskKind::D525(names::IBM_SSDD_8)),
+        ("IBM_SSDD_9", names::IBM_SSDD_9, DiskKind::D525(names::IBM_SSDD_9)),
+        ("IBM_DSDD_8", names::IBM_DSDD_8, DiskKind::D525(names::IBM_DSDD_8)),
+        ("IBM_DSDD_9", names::IBM_DSDD_9, DiskKind::D525(names::IBM_DSDD_9)),
+        ("IBM_SSQD", names::IBM_SSQD, DiskKind::D525(names::IBM_SSQD)),
+        ("IBM_DSQD", names::IBM_DSQD, DiskKind::D525(names::IBM_DSQD)),
+        ("IBM_DSHD", names::IBM_DSHD, DiskKind::D525(names::IBM_DSHD)),
+        ("IBM_720", names::IBM_720, DiskKind::D35(names::IBM_720)),
+        ("IBM_1440", names::IBM_1440, DiskKind::D35(names::IBM_1440)),
+        ("IBM_2880", names::IBM_2880, DiskKind::D35(names::IBM_2880)),
+    ]
+}
+fn is_cpm_layout(n: &str) -> bool { !n.starts_with("IBM_") }
+
+/// the pairings of `mkimage` in commands/mkdsk.rs (library constructors called the same way)
+fn mk_img(container: &str, kind: DiskKind) -> Option<Box<dyn DiskImage>> {
+    match guarded(|| mk_img_raw(container, kind)) { Ok(x) => x, Err(_) => None }
+}
+
+fn mk_img_raw(container: &str, kind: DiskKind) -> Option<Box<dyn DiskImage>> {
+    let ibm = layouts().iter().any(|(n, _, k)| *k == kind && !is_cpm_layout(n));
+    let cpmk = layouts().iter().any(|(n, _, k)| *k == kind && is_cpm_layout(n));
+    Some(match (container, kind) {
+        ("d13", names::A2_DOS32_KIND) => Box::new(img::dsk_d13::D13::create(35)),
+        ("do", names::A2_DOS33_KIND) => Box::new(img::dsk_do::DO::create(35, 16)),
+        ("po", names::A2_DOS33_KIND) => Box::new(img::dsk_po::PO::create(280)),
+        ("po", names::A2_400_KIND) => Box::new(img::dsk_po::PO::create(800)),
+        ("po", names::A2_800_KIND) => Box::new(img::dsk_po::PO::create(1600)),
+        ("woz1", names::A2_DOS32_KIND) | ("woz1", names::A2_DOS33_KIND) => Box::new(img::woz1::Woz1::create(254, kind)),
+        ("woz2", names::A2_DOS32_KIND) | ("woz2", names::A2_DOS33_KIND) | ("woz2", names::A2_400_KIND) | ("woz2", names::A2_800_KIND) =>
+            Box::new(img::woz2::Woz2::create(254, kind)),
+        ("nib", names::A2_DOS32_KIND) | ("nib", names::A2_DOS33_KIND) => Box::new(img::nib::Nib::create(254, kind)),
+        ("2mg-do", names::A2_DOS33_KIND) => img::dot2mg::Dot2mg::create(254, kind, Some(&"do".to_string())).ok()?,
+        ("2mg-nib", names::A2_DOS33_KIND) => img::dot2mg::Dot2mg::create(254, kind, Some(&"nib".to_string())).ok()?,
+        ("2mg-po", names::A2_400_KIND) | ("2mg-po", names::A2_800_KIND) => img::dot2mg::Dot2mg::create(254, kind, Some(&"po".to_string())).ok()?,
+        ("imd", _) if ibm || cpmk => Box::new(img::imd::Imd::create(kind)),
+        ("td0", _) if ibm || cpmk => Box::new(img::td0::Td0::create(kind)),
+        ("img", _) if ibm => Box::new(img::dsk_img::Img::create(kind)),
+        _ => return None,
+    })
+}
+
+// ---------------------------------------------------------------------------------------------
+// (a1) shared functions
+
+fn ts_str(v: &Vec<[usize; 2]>) -> String { commas(v.iter().map(|p| dots(&p[..])).collect()) }
+fn chs_str(v: &Vec<[usize; 3]>) -> String { commas(v.iter().map(|p| dots(&p[..])).collect()) }
+
+fn rand_block(rng: &mut Rng) -> Block {
+    match rng.below(10) {
+        0 => Block::D13([rng.below(36), rng.below(14)]),
+        1 => Block::DO([rng.below(36), rng.below(17)]),
+        2 => Block::PO(rng.below(300)),
+        3..=6 => Block::CPM((rng.below(600), *rng.pick(&[0u8, 3, 3, 4, 4, 5]), rng.below(4) as u16)),
+        _ => Block::FAT((rng.below(6000) as u64, *rng.pick(&[0u8, 1, 1, 2, 2, 4, 8]))),
+    }
+}
+
+fn part_functions(ctx: &mut Ctx, rng: &mut Rng, idx: &mut usize) {
+    let n = ctx.n(1500, 60000);
+    for i in 0..n {
+        let mut r = rng.fork(*idx as u64);
+        let me = *idx;
+        *idx += 1;
+        if !ctx.out.wants(me) { continue; }
+        let (req, ans, key) = match i % 5 {
+            0 => {
+                let b = rand_block(&mut r);
+                let spt = *r.pick(&[0usize, 8, 9, 10, 15, 16, 18, 20, 26, 32, 36, 40, 52, 64]);
+                let a = match guarded(|| b.get_lsecs(spt)) { Ok(v) => format!("ok {}", ts_str(&v)), Err(_) => "panic".to_string() };
+                (format!("c07 lsecs {} {}", spt, blk_tok(&b)), a, "fn:get_lsecs")
+            }
+            1 => {
+                let (kt, kind, lim) = *r.pick(&[("dos33", names::A2_DOS33_KIND, 300usize), ("a400", names::A2_400_KIND, 810), ("a800", names::A2_800_KIND, 1610),
+                                                ("dos32", names::A2_DOS32_KIND, 300)]);
+                let b = if r.chance(25) { *r.pick(&[0, 1, 7, 8, lim - 11, lim - 10, 191, 192, 383, 384, 799, 800, 1599, 1600]) } else { r.below(lim) };
+                let a = match guarded(|| skew::ts_from_prodos_block(b, &kind)) { Ok(Ok(v)) => format!("ok {}", ts_str(&v)), Ok(Err(_)) => "err".to_string(), Err(_) => "panic".to_string() };
+                (format!("c07 tsprodos {} {}", kt, b), a, "fn:ts_from_prodos_block")
+            }
+            2 => {
+                let (t, s) = (r.below(40), r.below(18));
+                let a = match guarded(|| skew::prodos_block_from_ts(t, s)) { Ok(Ok((b, o))) => format!("ok {}.{}", b, o), Ok(Err(_)) => "err".to_string(), Err(_) => "panic".to_string() };
+                (format!("c07 blkfromts {} {}", t, s), a, "fn:prodos_block_from_ts")
+            }
+            3 => {
+                // mostly the lists real callers pass (get_lsecs of a CP/M block), sometimes damaged
+                let ssh = *r.pick(&[0usize, 1, 2, 2, 3]);
+                let heads = *r.pick(&[0usize, 1, 1, 2, 2]);
+                let spt = *r.pick(&[20usize, 26, 36, 40, 52, 64]);
+                let b = Block::CPM((r.below(400), *r.pick(&[3u8, 4]), r.below(4) as u16));
+                let mut ts = b.get_lsecs(spt);
+                match r.below(8) { 0 => { ts.remove(0); } 1 => { let k = r.below(ts.len()); ts[k][1] = 0; } 2 => { ts.clear(); } 3 => { let k = r.below(ts.len()); ts[k][0] += 1; } _ => {} }
+                let tsc = ts.clone();
+                let a = match guarded(move || skew::cpm_blocking(tsc, ssh as u8, heads)) { Ok(Ok(v)) => format!("ok {}", chs_str(&v)), Ok(Err(_)) => "err".to_string(), Err(_) => "panic".to_string() };
+                (format!("c07 cpmblk {} {} {}", ssh, heads, ts_str(&ts)), a, "fn:cpm_blocking")
+            }
+            _ => {
+                let heads = *r.pick(&[0usize, 1, 1, 2, 2]);
+                let spt = *r.pick(&[8usize, 9, 15, 18, 36]);
+                let b = Block::FAT((r.below(6000) as u64, *r.pick(&[0u8, 1, 2, 4])));
+                let ts = b.get_lsecs(spt);
+                let tsc = ts.clone();
+                let a = match guarded(move || skew::fat_blocking(tsc, heads)) { Ok(Ok(v)) => format!("ok {}", chs_str(&v)), Ok(Err(_)) => "err".to_string(), Err(_) => "panic".to_string() };
+                (format!("c07 fatblk {} {}", heads, ts_str(&ts)), a, "fn:fat_blocking")
+            }
+        };
+        ctx.out.count(key);
+        ctx.out.count(&format!("outcome:{}", ans.split(' ').next().unwrap_or("")));
+        ctx.out.q(&req, &ans);
+        ctx.out.case(req.as_bytes(), ans.starts_with("ok ") && ans != "ok -");
+        if i < 3 { ctx.out.sample(&format!("idx={} {} => {}", me, req, ans)); }
+    }
+}
+
+// ---------------------------------------------------------------------------------------------
+// (a2) address maps of the containers
+
+/// geometry to scan with `read_sector`: cylinders, heads, sector ids
+struct Scan { cyls: usize, heads: usize, ids: Vec<usize> }
+
+fn scan_of(kind: &DiskKind) -> Scan {
+    match *kind {
+        names::A2_DOS32_KIND => Scan { cyls: 35, heads: 1, ids: (0..13).collect() },
+        names::A2_DOS33_KIND => Scan { cyls: 35, heads: 1, ids: (0..16).collect() },
+        names::A2_400_KIND => Scan { cyls: 80, heads: 1, ids: (0..12).collect() },
+        names::A2_800_KIND => Scan { cyls: 80, heads: 2, ids: (0..12).collect() },
+        DiskKind::D3(l) | DiskKind::D35(l) | DiskKind::D525(l) | DiskKind::D8(l) =>
+            Scan { cyls: l.track_count() / std::cmp::max(1, l.sides()), heads: l.sides(), ids: (0..41).collect() },
+        _ => Scan { cyls: 0, heads: 0, ids: vec![] },
+    }
+}
+
+/// (sectors on track 0, sector size on track 0) of an IBM kind, probed on a fresh IMD image
+/// (the fields of `TrackLayout` are private)
+fn probe(kind: &DiskKind) -> (usize, usize) {
+    // IMD and TD0 cannot be created for every layout mkimage pairs them with (2.88 MB: `panic!("unhandled
+    // track mode")`, a C10 matter); fall back to IMG
+    let Some(mut im) = mk_img("imd", *kind).or_else(|| mk_img("img", *kind)) else { return (0, 0); };
+    let mut n = 0;
+    let mut size = 0;
+    for s in 0..41 { if let Ok(Ok(d)) = guarded(|| im.read_sector(0, 0, s)) { n += 1; size = d.len(); } }
+    (n, size)
+}
+
+/// all physical sectors an image shows: (c,h,s) -> data
+fn read_all_sectors(img: &mut Box<dyn DiskImage>, sc: &Scan) -> Vec<([usize; 3], Vec<u8>)> {
+    let mut ans = Vec::new();
+    for c in 0..sc.cyls { for h in 0..sc.heads { for s in &sc.ids {
+        if let Ok(Ok(d)) = guarded(|| img.read_sector(c, h, *s)) { ans.push(([c, h, *s], d)); }
+    }}}
+    ans
+}
+
+/// locate the units of the pattern in data order and merge neighbours: `c.h.s.off.len`
+fn locate_units(sectors: &Vec<([usize; 3], Vec<u8>)>, nunits: usize, salt: usize) -> String {
+    let mut where_is: HashMap<Vec<u8>, Vec<[usize; 4]>> = HashMap::new();
+    for (chs, d) in sectors {
+        let mut o = 0;
+        while o + 128 <= d.len() {
+            if d[o] != 0 { where_is.entry(d[o..o + 128].to_vec()).or_default().push([chs[0], chs[1], chs[2], o]); }
+            o += 128;
+        }
+    }
+    let mut pieces: Vec<[usize; 5]> = Vec::new();
+    for k in 0..nunits {
+        match where_is.get(&unit(k, salt)) {
+            Some(v) if v.len() == 1 => {
+                let w = v[0];
+                if let Some(last) = pieces.last_mut() {
+                    if last[0] == w[0] && last[1] == w[1] && last[2] == w[2] && last[3] + last[4] == w[3] { last[4] += 128; continue; }
+                }
+                pieces.push([w[0], w[1], w[2], w[3], 128]);
+            }
+            Some(v) => return format!("unit-{}-found-{}-times", k, v.len()),
+            None => return format!("unit-{}-lost", k),
+        }
+    }
+    format!("ok {}", commas(pieces.iter().map(|p| dots(&p[..])).collect()))
+}
+
+fn locate_flat(bytes: &[u8], nunits: usize, salt: usize) -> String {
+    let mut where_is: HashMap<Vec<u8>, Vec<usize>> = HashMap::new();
+    let mut o = 0;
+    while o + 128 <= bytes.len() {
+        if bytes[o] != 0 { where_is.entry(bytes[o..o + 128].to_vec()).or_default().push(o); }
+        o += 128;
+    }
+    let mut pieces: Vec<[usize; 2]> = Vec::new();
+    for k in 0..nunits {
+        match where_is.get(&unit(k, salt)) {
+            Some(v) if v.len() == 1 => {
+                if let Some(last) = pieces.last_mut() { if last[0] + last[1] == v[0] { last[1] += 128; continue; } }
+                pieces.push([v[0], 128]);
+            }
+            Some(v) => return format!("unit-{}-found-{}-times", k, v.len()),
+            None => return format!("unit-{}-lost", k),
+        }
+    }
+    // the model reports one piece per sector/record; split merged ranges is not possible here, so
+    // both sides are normalised by the caller (`norm_flat`)
+    format!("ok {}", commas(pieces.iter().map(|p| dots(&p[..])).collect()))
+}
+
+struct MapCfg { container: &'static str, proto: &'static str, kind_tok: String, kind: DiskKind, flat: Option<&'static str>, phys: bool }
+
+fn block_len(b: &Block, kind: &DiskKind) -> usize {
+    match b {
+        Block::D13(_) | Block::DO(_) => 256,
+        Block::PO(_) => 512,
+        Block::CPM((_, bsh, _)) => 128usize << bsh,
+        Block::FAT((_, n)) => {
+            *n as usize * probe(kind).1
+        }
+    }
+}
+
+fn gen_block(r: &mut Rng, cfg: &MapCfg) -> Block {
+    let edge = r.chance(35);
+    match cfg.kind {
+        names::A2_DOS32_KIND => Block::D13(if edge { *r.pick(&[[0, 0], [0, 12], [34, 0], [34, 12], [17, 0]]) } else { [r.below(35), r.below(13)] }),
+        names::A2_DOS33_KIND => match r.below(if cfg.container == "po" { 1 } else { 3 }) {
+            0 => Block::PO(if edge { *r.pick(&[0, 1, 7, 8, 279, 272, 136]) } else { r.below(280) }),
+            1 => Block::DO(if edge { *r.pick(&[[0, 0], [0, 15], [34, 0], [34, 15], [17, 0], [17, 15]]) } else { [r.below(35), r.below(16)] }),
+            _ => Block::CPM((if edge { *r.pick(&[0, 1, 3, 4, 127, 126]) } else { r.below(128) }, 3, 3)),
+        },
+        names::A2_400_KIND => Block::PO(if edge { *r.pick(&[0, 11, 12, 191, 192, 367, 368, 527, 528, 671, 672, 799]) } else { r.below(800) }),
+        names::A2_800_KIND => Block::PO(if edge { *r.pick(&[0, 11, 12, 23, 24, 383, 384, 735, 736, 1055, 1056, 1343, 1344, 1599]) } else { r.below(1600) }),
+        _ => {
+            let lay = match cfg.kind { DiskKind::D3(l) | DiskKind::D35(l) | DiskKind::D525(l) | DiskKind::D8(l) => l, _ => unreachable!() };
+            if is_cpm_layout(&cfg.kind_tok[2..]) && (cfg.container != "img") {
+                let d = dpb::DiskParameterBlock::create(&cfg.kind);
+                let nb = d.user_blocks();
+                Block::CPM((if edge { *r.pick(&[0, 1, nb - 1, nb - 2, nb / 2]) } else { r.below(nb) }, d.bsh, d.off))
+            } else {
+                let spt = std::cmp::max(1, probe(&cfg.kind).0);
+                let total = lay.track_count() * spt;
+                let n = *r.pick(&[1usize, 1, 2, 2, 4]);
+                let s = if edge { *r.pick(&[0, spt - 1, spt, total - n, total / 2]) } else { r.below(total - n + 1) };
+                Block::FAT((s as u64, n as u8))
+            }
+        }
+    }
+}
+
+fn part_addrmaps(ctx: &mut Ctx, rng: &mut Rng, idx: &mut usize) {
+    let mut cfgs: Vec<MapCfg> = Vec::new();
+    let a = |c, p, kt: &str, k, flat, phys| MapCfg { container: c, proto: p, kind_tok: kt.to_string(), kind: k, flat, phys };
+    cfgs.push(a("do", "do", "dos33", names::A2_DOS33_KIND, Some("do"), true));
+    cfgs.push(a("2mg-do", "do", "dos33", names::A2_DOS33_KIND, None, true));
+    cfgs.push(a("po", "po", "dos33", names::A2_DOS33_KIND, Some("po280"), false));
+    cfgs.push(a("nib", "nib", "dos33", names::A2_DOS33_KIND, None, true));
+    cfgs.push(a("woz1", "nib", "dos33", names::A2_DOS33_KIND, None, true));
+    cfgs.push(a("woz2", "nib", "dos33", names::A2_DOS33_KIND, None, true));
+    cfgs.push(a("2mg-nib", "nib", "dos33", names::A2_DOS33_KIND, None, true));
+    cfgs.push(a("d13", "d13", "dos32", names::A2_DOS32_KIND, Some("d13"), true));
+    cfgs.push(a("nib", "nib", "dos32", names::A2_DOS32_KIND, None, true));
+    cfgs.push(a("woz1", "nib", "dos32", names::A2_DOS32_KIND, None, true));
+    cfgs.push(a("woz2", "nib", "dos32", names::A2_DOS32_KIND, None, true));
+    cfgs.push(a("po", "po", "a400", names::A2_400_KIND, Some("po800"), false));
+    cfgs.push(a("po", "po", "a800", names::A2_800_KIND, Some("po1600"), false));
+    cfgs.push(a("woz2", "nib", "a400", names::A2_400_KIND, None, true));
+    cfgs.push(a("woz2", "nib", "a800", names::A2_800_KIND, None, true));
+    for (n, _, k) in layouts() {
+        let kt = format!("L:{}", n);
+        if !is_cpm_layout(n) { cfgs.push(a("img", "img", &kt, k, None, true)); }
+        cfgs.push(a("imd", "imd", &kt, k, None, true));
+        cfgs.push(a("td0", "td0", &kt, k, None, true));
+    }
+    let per = ctx.n(8, 150);
+    for cfg in cfgs.iter() {
+        let slow = cfg.proto == "nib";
+        let nblk = if slow { ctx.n(5, 80) } else { per };
+        let mut image: Option<Box<dyn DiskImage>> = None;
+        for _ in 0..nblk {
+            let mut r = rng.fork(*idx as u64);
+            let me = *idx;
+            *idx += 1;
+            if !ctx.out.wants(me) { continue; }
+            if image.is_none() { image = mk_img(cfg.container, cfg.kind); }
+            let Some(im) = image.as_mut() else { continue; };
+            let blk = gen_block(&mut r, cfg);
+            let len = block_len(&blk, &cfg.kind);
+            if len == 0 || len / 128 > 250 { continue; }
+            let salt = r.below(200);
+            let dat = pattern(len, salt);
+            let case = format!("idx={} container={} kind={} block={}", me, cfg.container, cfg.kind_tok, blk_tok(&blk));
+            ctx.out.count(&format!("map:{}:{}", cfg.container, blk_tok(&blk).split(' ').next().unwrap()));
+            let w = guarded(|| im.write_block(blk, &dat).map_err(errs));
+            let outcome = match &w { Ok(Ok(())) => "ok", Ok(Err(_)) => "err", Err(_) => "panic" };
+            let sc = scan_of(&cfg.kind);
+            if cfg.phys {
+                let ans = if outcome == "ok" { locate_units(&read_all_sectors(im, &sc), len / 128, salt) } else { outcome.to_string() };
+                // the model lists one piece per sector; the observation merges only within a sector, so both agree
+                ctx.out.q(&format!("c07 pieces {} {} {}", cfg.proto, cfg.kind_tok, blk_tok(&blk)), &ans);
+            }
+            if let Some(flat) = cfg.flat {
+                let ans = if outcome == "ok" { norm_flat(&locate_flat(&im.to_bytes(), len / 128, salt), flat) } else { outcome.to_string() };
+                ctx.out.q(&format!("c07 flat {} {}", flat, blk_tok(&blk)), &ans);
+            }
+            // read back through read_block: must return the data (container round trip, cheap sanity)
+            if outcome == "ok" {
+                let rb = guarded(|| im.read_block(blk).map_err(errs));
+                ctx.out.oracle(matches!(&rb, Ok(Ok(d)) if *d == dat), "block-write-read", &format!("c07/addrmap/{}/readback-differs", cfg.container), &case);
+                let _ = guarded(|| im.write_block(blk, &vec![0u8; len]));
+            } else { image = None; }
+            ctx.out.case(case.as_bytes(), outcome == "ok");
+            ctx.out.sample(&case);
+        }
+        // physical sector addressing of the flat containers: where does write_sector put its data
+        if matches!(cfg.proto, "do" | "d13" | "img") && cfg.container != "2mg-do" {
+            for _ in 0..ctx.n(6, 100) {
+                let mut r = rng.fork(*idx as u64);
+                let me = *idx;
+                *idx += 1;
+                if !ctx.out.wants(me) { continue; }
+                if image.is_none() { image = mk_img(cfg.container, cfg.kind); }
+                let Some(im) = image.as_mut() else { continue; };
+                let sc = scan_of(&cfg.kind);
+                let (c, h) = (r.below(sc.cyls + 1), if r.chance(10) { sc.heads } else { r.below(sc.heads) });
+                let s = r.below(if cfg.proto == "img" { 38 } else { 17 });
+                let ss = if cfg.proto == "img" { probe(&cfg.kind).1 } else { 256 };
+                let salt = r.below(200);
+                let dat = pattern(ss, salt);
+                let w = guarded(|| im.write_sector(c, h, s, &dat).map_err(errs));
+                let ans = match &w {
+                    Ok(Ok(())) => {
+                        let a = locate_flat(&im.to_bytes(), ss / 128, salt);
+                        let _ = guarded(|| im.write_sector(c, h, s, &vec![0u8; ss]));
+                        a
+                    }
+                    Ok(Err(_)) => "err".to_string(),
+                    Err(_) => { image = None; "panic".to_string() }
+                };
+                ctx.out.count(&format!("sector:{}:{}", cfg.container, ans.split(' ').next().unwrap_or("")));
+                ctx.out.q(&format!("c07 sector {} {} {} {} {}", cfg.proto, cfg.kind_tok, c, h, s), &ans);
+                ctx.out.case(format!("sector {} {} {} {} {}", cfg.container, cfg.kind_tok, c, h, s).as_bytes(), ans.starts_with("ok"));
+            }
+        }
+    }
+}
+
+/// the model reports one flat piece per sector / record / block; contiguous pieces are merged on both
+/// sides by re-splitting the observation at the container's piece size
+fn norm_flat(obs: &str, flat: &str) -> String {
+    let Some(body) = obs.strip_prefix("ok ") else { return obs.to_string(); };
+    let q = if flat.starts_with("po") { 512 } else { 256 };
+    let mut out: Vec<String> = Vec::new();
+    for p in body.split(',') {
+        let v: Vec<usize> = p.split('.').filter_map(|x| x.parse().ok()).collect();
+        if v.len() != 2 { return obs.to_string(); }
+        let (mut o, mut l) = (v[0], v[1]);
+        while l > 0 {
+            let step = std::cmp::min(l, q - o % q);
+            out.push(format!("{}.{}", o, step));
+            o += step; l -= step;
+        }
+    }
+    format!("ok {}", out.join(","))
+}
+
+// ---------------------------------------------------------------------------------------------
+// (b) same history on every container of a kind
+
+#[derive(Clone, Copy, PartialEq, Eq, Debug)]
+enum Fs { Dos32, Dos33, Prodos, Pascal, Cpm2, Cpm3, Fat }
+impl Fs {
+    fn id(&self) -> &'static str { match self { Fs::Dos32 => "dos32", Fs::Dos33 => "dos33", Fs::Prodos => "prodos", Fs::Pascal => "pascal", Fs::Cpm2 => "cpm2", Fs::Cpm3 => "cpm3", Fs::Fat => "fat" } }
+    fn has_dirs(&self) -> bool { matches!(self, Fs::Prodos | Fs::Fat) }
+}
+
+/// format exactly as commands/mkdsk.rs does (mkdos3x, mkprodos, mkpascal, mkcpm, mkfat)
+fn make_volume(fs: Fs, img: Box<dyn DiskImage>, kind: &DiskKind) -> Result<Box<dyn DiskFS>, String> {
+    match fs {
+        Fs::Dos33 => { let mut d = dos3x::Disk::from_img(img).map_err(errs)?; d.init33(254, false).map_err(errs)?; Ok(Box::new(d)) }
+        Fs::Dos32 => { let mut d = dos3x::Disk::from_img(img).map_err(errs)?; d.init32(254, false).map_err(errs)?; Ok(Box::new(d)) }
+        Fs::Prodos => {
+            // the SAME operation on every container: the flag is taken from the requested disk kind
+            // (what `mkdsk` itself passes is checked by part (c) through the real `mkdsk`)
+            let floppy = matches!(kind, DiskKind::D35(_) | DiskKind::D525(_) | DiskKind::D8(_));
+            let mut d = prodos::Disk::from_img(img).map_err(errs)?; d.format("VERIF", floppy, None).map_err(errs)?; Ok(Box::new(d))
+        }
+        Fs::Pascal => { let mut d = pascal::Disk::from_img(img).map_err(errs)?; d.format("VERIF", 0xee, None).map_err(errs)?; Ok(Box::new(d)) }
+        Fs::Cpm2 => { let mut d = cpm::Disk::from_img(img, dpb::DiskParameterBlock::create(kind), [2, 2, 3]).map_err(errs)?; d.format("", None).map_err(errs)?; Ok(Box::new(d)) }
+        Fs::Cpm3 => {
+            let now = chrono::Local::now().naive_local();
+            let mut d = cpm::Disk::from_img(img, dpb::DiskParameterBlock::create(kind), [3, 1, 0]).map_err(errs)?; d.format("VERIF", Some(now)).map_err(errs)?; Ok(Box::new(d))
+        }
+        Fs::Fat => {
+            let boot = bpb::BootSector::create(kind).map_err(errs)?;
+            let mut d = fat::Disk::from_img(img, Some(boot)).map_err(errs)?; d.format("VERIF", None).map_err(errs)?; Ok(Box::new(d))
+        }
+    }
+}
+
+#[derive(Clone, Debug)]
+enum Op { Put(String, usize, u64), Delete(String), Rename(String, String), Mkdir(String) }
+
+fn fname(fs: Fs, i: usize) -> String {
+    match fs { Fs::Dos32 | Fs::Dos33 | Fs::Prodos => format!("F{}", i), _ => format!("F{}.BIN", i) }
+}
+
+fn gen_history(fs: Fs, r: &mut Rng, nops: usize, big: usize) -> Vec<Op> {
+    let sizes = [1usize, 127, 128, 129, 255, 256, 257, 511, 512, 513, 1023, 1024, 1025, 2047, 2048, 2049, 4097, big];
+    let mut live: Vec<String> = Vec::new();
+    let mut dirs: Vec<String> = Vec::new();
+    let mut ops = Vec::new();
+    let mut counter = 0;
+    for k in 0..nops {
+        let choice = if k < 2 { 0 } else { r.below(10) };
+        match choice {
+            0..=4 => {
+                counter += 1;
+                let base = fname(fs, counter);
+                let path = if !dirs.is_empty() && r.chance(40) { format!("{}/{}", r.pick(&dirs), base) } else { base };
+                ops.push(Op::Put(path.clone(), *r.pick(&sizes), r.next()));
+                live.push(path);
+            }
+            5 | 6 if !live.is_empty() => { let i = r.below(live.len()); ops.push(Op::Delete(live.remove(i))); }
+            7 if !live.is_empty() => {
+                counter += 1;
+                let i = r.below(live.len());
+                let old = live[i].clone();
+                let newbase = fname(fs, counter).replace('F', "R");
+                let newpath = match old.rfind('/') { Some(p) => format!("{}/{}", &old[..p], newbase), None => newbase.clone() };
+                ops.push(Op::Rename(old, newbase));
+                live[i] = newpath;
+            }
+            8 if fs.has_dirs() && dirs.len() < 2 => { let d = format!("D{}", dirs.len() + 1); ops.push(Op::Mkdir(d.clone())); dirs.push(d); }
+            _ => {
+                counter += 1;
+                let base = fname(fs, counter);
+                ops.push(Op::Put(base.clone(), *r.pick(&sizes), r.next()));
+                live.push(base);
+            }
+        }
+    }
+    ops
+}
+
+fn apply(fs: Fs, disk: &mut Box<dyn DiskFS>, op: &Op) -> String {
+    let res = guarded(|| -> Result<(), String> {
+        match op {
+            Op::Put(path, size, seed) => {
+                let dat = Rng::new(*seed).bytes(*size);
+                let addr = match fs { Fs::Dos32 | Fs::Dos33 | Fs::Prodos => Some(0x2000), _ => None };
+                disk.bsave(path, &dat, addr, None).map(|_| ()).map_err(errs)
+            }
+            Op::Delete(p) => disk.delete(p).map_err(errs),
+            Op::Rename(p, n) => disk.rename(p, n).map_err(errs),
+            Op::Mkdir(p) => disk.create(p).map_err(errs),
+        }
+    });
+    match res { Ok(Ok(())) => "ok".to_string(), Ok(Err(e)) => format!("err:{}", e), Err(p) => format!("panic:{}", panic_site(&p)) }
+}
+
+fn fimg_canon(f: &a2kit::fs::FileImage) -> String {
+    let mut keys: Vec<&usize> = f.chunks.keys().collect();
+    keys.sort();
+    let mut h = 0xcbf29ce484222325u64;
+    for k in &keys { h ^= fnv(&k.to_le_bytes()); h = h.wrapping_mul(0x100000001b3); h ^= fnv(&f.chunks[*k]); h = h.wrapping_mul(0x100000001b3); }
+    format!("fs={} clen={} eof={} type={} aux={} acc={} cr={} mod={} ver={} minver={} chunks={} hash={:016x}",
+            f.file_system, f.chunk_len, hx(&f.eof), hx(&f.fs_type), hx(&f.aux), hx(&f.access), hx(&f.created), hx(&f.modified),
+            hx(&f.version), hx(&f.min_version), keys.len(), h)
+}
+
+struct View { name: String, op_results: Vec<String>, blocks: Vec<Result<Vec<u8>, String>>, sectors: Vec<([usize; 3], Vec<u8>)>, sector_view: bool,
+              files: Vec<String>, catalog: String }
+
+fn observe(fs: Fs, name: &str, disk: &mut Box<dyn DiskFS>, kind: &DiskKind, op_results: Vec<String>, paths: &Vec<String>, dirs: &Vec<String>) -> View {
+    let (beg, end) = match guarded(|| disk.stat().map_err(errs)) { Ok(Ok(s)) => (s.block_beg, s.block_end), _ => (0, 0) };
+    let _ = fs;
+    let mut blocks = Vec::new();
+    for b in beg..end {
+        blocks.push(match guarded(|| disk.read_block(&b.to_string()).map_err(errs)) { Ok(Ok(d)) => Ok(d), Ok(Err(e)) => Err(format!("err:{}", e)), Err(p) => Err(format!("panic:{}", panic_site(&p))) });
+    }
+    let sc = scan_of(kind);
+    let sectors = read_all_sectors(disk.get_img(), &sc);
+    let mut files = Vec::new();
+    for p in paths {
+        files.push(match guarded(|| disk.get(p).map_err(errs)) { Ok(Ok(f)) => fimg_canon(&f), Ok(Err(e)) => format!("err:{}", e), Err(pp) => format!("panic:{}", panic_site(&pp)) });
+    }
+    let mut catalog = String::new();
+    for d in std::iter::once(&"/".to_string()).chain(dirs.iter()) {
+        catalog += &match guarded(|| disk.catalog_to_vec(d).map_err(errs)) { Ok(Ok(v)) => v.join("|"), Ok(Err(e)) => format!("err:{}", e), Err(pp) => format!("panic:{}", panic_site(&pp)) };
+        catalog += "\n";
+    }
+    View { name: name.to_string(), op_results, blocks, sector_view: !sectors.is_empty(), sectors, files, catalog }
+}
+
+/// physical sector view of a PO image, through the real skew functions: for 5.25 inch disks the standard
+/// ProDOS interleave `prodos_block_from_ts`, for 3.5 inch disks the inverse of `ts_from_prodos_block`
+fn po_sector_view(disk: &mut Box<dyn DiskFS>, kind: &DiskKind) -> Vec<([usize; 3], Vec<u8>)> {
+    let mut ans = Vec::new();
+    let img = disk.get_img();
+    match *kind {
+        names::A2_DOS33_KIND => {
+            for t in 0..35 { for p in 0..16 {
+                let l = skew::DOS_PSEC_TO_DOS_LSEC[p];
+                if let Ok((b, o)) = skew::prodos_block_from_ts(t, l) {
+                    if let Ok(Ok(d)) = guarded(|| img.read_block(Block::PO(b))) { if d.len() >= o + 256 { ans.push(([t, 0, p], d[o..o + 256].to_vec())); } }
+                }
+            }}
+        }
+        names::A2_400_KIND | names::A2_800_KIND => {
+            let (n, heads) = if *kind == names::A2_400_KIND { (800, 1) } else { (1600, 2) };
+            for b in 0..n {
+                if let Ok(Ok(ts)) = guarded(|| skew::ts_from_prodos_block(b, kind)) {
+                    if ts.len() == 1 { if let Ok(Ok(d)) = guarded(|| img.read_block(Block::PO(b))) { ans.push(([ts[0][0] / heads, ts[0][0] % heads, ts[0][1]], d)); } }
+                }
+            }
+            ans.sort();
+        }
+        _ => {}
+    }
+    ans
+}
+
+struct HistCfg { fs: Fs, kind_name: String, kind: DiskKind, containers: Vec<&'static str> }
+
+fn hist_cfgs() -> Vec<HistCfg> {
+    let mut v = Vec::new();
+    let h = |fs, kn: &str, kind, cs: &[&'static str]| HistCfg { fs, kind_name: kn.to_string(), kind, containers: cs.to_vec() };
+    v.push(h(Fs::Dos33, "a2-525", names::A2_DOS33_KIND, &["do", "nib", "woz1", "woz2", "2mg-do", "2mg-nib"]));
+    v.push(h(Fs::Prodos, "a2-525", names::A2_DOS33_KIND, &["do", "po", "nib", "woz1", "woz2", "2mg-do", "2mg-nib"]));
+    v.push(h(Fs::Pascal, "a2-525", names::A2_DOS33_KIND, &["do", "po", "nib", "woz1", "woz2", "2mg-do", "2mg-nib"]));
+    v.push(h(Fs::Cpm2, "a2-525", names::A2_DOS33_KIND, &["do", "nib", "woz1", "woz2", "2mg-do", "2mg-nib"]));
+    v.push(h(Fs::Dos32, "a2-513", names::A2_DOS32_KIND, &["d13", "nib", "woz1", "woz2"]));
+    v.push(h(Fs::Prodos, "a2-400", names::A2_400_KIND, &["po", "woz2", "2mg-po"]));
+    v.push(h(Fs::Prodos, "a2-800", names::A2_800_KIND, &["po", "woz2", "2mg-po"]));
+    v.push(h(Fs::Cpm3, "a2-525", names::A2_DOS33_KIND, &["do", "nib", "woz2"]));
+    for (n, _, k) in layouts() {
+        if is_cpm_layout(n) { v.push(h(Fs::Cpm2, n, k, &["imd", "td0"])); } else { v.push(h(Fs::Fat, n, k, &["img", "imd", "td0"])); }
+    }
+    for (n, _, k) in layouts() { if is_cpm_layout(n) { v.push(h(Fs::Cpm3, n, k, &["imd", "td0"])); } }
+    v
+}
+
+fn part_histories(ctx: &mut Ctx, rng: &mut Rng, idx: &mut usize) {
+    let cfgs = hist_cfgs();
+    let rounds = ctx.n(3, 30);
+    for round in 0..rounds {
+        for cfg in cfgs.iter() {
+            let mut r = rng.fork(*idx as u64);
+            let me = *idx;
+            *idx += 1;
+            if !ctx.out.wants(me) { continue; }
+            let nibble = cfg.containers.iter().any(|c| matches!(*c, "nib" | "woz1" | "woz2" | "2mg-nib"));
+            // quick tier: the Cpm3 configurations and the IBM kinds beyond the first round-robin share are sampled
+            if !ctx.tier_thorough && cfg.fs == Fs::Cpm3 && r.chance(60) { ctx.out.count("hist:skipped-quick"); continue; }
+            let nops = if ctx.tier_thorough { if nibble { 20 } else { 40 } } else if nibble { 6 } else { 12 };
+            let big = *r.pick(&[3000usize, 6000, 9000]);
+            let ops = gen_history(cfg.fs, &mut r, nops + round, big);
+            let paths: Vec<String> = {
+                let mut p: Vec<String> = Vec::new();
+                for o in &ops { match o { Op::Put(x, _, _) => p.push(x.clone()),
+                    Op::Rename(old, nb) => p.push(match old.rfind('/') { Some(q) => format!("{}/{}", &old[..q], nb), None => nb.clone() }), _ => {} } }
+                p.sort(); p.dedup(); p
+            };
+            let dirs: Vec<String> = ops.iter().filter_map(|o| if let Op::Mkdir(d) = o { Some(d.clone()) } else { None }).collect();
+            let case = format!("idx={} fs={} kind={} containers={} ops={:?}", me, cfg.fs.id(), cfg.kind_name, cfg.containers.join("+"), ops);
+            let mut views: Vec<View> = Vec::new();
+            let mut po_views: Vec<(String, Vec<([usize; 3], Vec<u8>)>)> = Vec::new();
+            let mut unsupported = 0;
+            for c in &cfg.containers {
+                // a container that cannot even be created for the kind (IMD/TD0 at 2.88 MB panic in `create`,
+                // a C10 matter) is not "able to hold" it
+                let Some(img0) = mk_img(c, cfg.kind) else { ctx.out.count(&format!("hist:container-unavailable:{}:{}", c, cfg.kind_name)); continue; };
+                let made = guarded(move || -> Result<Box<dyn DiskFS>, String> { make_volume(cfg.fs, img0, &cfg.kind) });
+                let mut disk = match made {
+                    Ok(Ok(d)) => d,
+                    Ok(Err(e)) => { unsupported += 1; views.push(View { name: c.to_string(), op_results: vec![format!("format-err:{}", e)], blocks: vec![], sectors: vec![], sector_view: false, files: vec![], catalog: String::new() }); continue; }
+                    Err(p) => { unsupported += 1; views.push(View { name: c.to_string(), op_results: vec![format!("format-panic:{}", panic_site(&p))], blocks: vec![], sectors: vec![], sector_view: false, files: vec![], catalog: String::new() }); continue; }
+                };
+                let mut results = vec!["format-ok".to_string()];
+                for o in &ops { results.push(apply(cfg.fs, &mut disk, o)); }
+                let v = observe(cfg.fs, c, &mut disk, &cfg.kind, results, &paths, &dirs);
+                if !v.sector_view { po_views.push((c.to_string(), po_sector_view(&mut disk, &cfg.kind))); }
+                views.push(v);
+            }
+            ctx.out.count(&format!("hist:{}:{}", cfg.fs.id(), if cfg.kind_name.starts_with("a2") { cfg.kind_name.as_str() } else { "ibm" }));
+            if views.len() < 2 { ctx.out.count("hist:fewer-than-two-containers"); ctx.out.case(case.as_bytes(), false); continue; }
+            // compare everything with the first container
+            let up = |s: &str| s.to_uppercase();
+            let sigp = |a: &str, b: &str, what: &str| format!("c07/{}/{}-vs-{}/{}", cfg.fs.id(), up(a), up(b), what);
+            let reference = &views[0];
+            let mut nontrivial = reference.op_results.iter().filter(|x| *x == "ok").count() >= 2 && unsupported == 0;
+            for v in views.iter().skip(1) {
+                let (a, b) = (reference.name.as_str(), v.name.as_str());
+                let same_ops = reference.op_results == v.op_results;
+                let detail = if same_ops { String::new() } else {
+                    let k = reference.op_results.iter().zip(v.op_results.iter()).position(|(x, y)| x != y).unwrap_or(0);
+                    format!(" step={} {}={} {}={}", k, a, reference.op_results.get(k).cloned().unwrap_or_default(), b, v.op_results.get(k).cloned().unwrap_or_default())
+                };
+                ctx.out.oracle(same_ops, "same-op-results", &sigp(a, b, "op-result-differs"), &format!("{}{}", case, detail));
+                if !same_ops { nontrivial = false; continue; }
+                let bd = if reference.blocks.len() != v.blocks.len() { Some(usize::MAX) } else { reference.blocks.iter().zip(v.blocks.iter()).position(|(x, y)| x != y) };
+                ctx.out.oracle(bd.is_none(), "same-blocks", &sigp(a, b, "block-differs"),
+                               &format!("{} first-differing-block-index={:?} of {}", case, bd, reference.blocks.len()));
+                ctx.out.oracle(reference.files == v.files, "same-files", &sigp(a, b, "file-differs"), &case);
+                ctx.out.oracle(reference.catalog == v.catalog, "same-catalog", &sigp(a, b, "catalog-differs"), &case);
+                if reference.sector_view && v.sector_view {
+                    let sd = if reference.sectors.len() != v.sectors.len() { Some([usize::MAX; 3]) } else {
+                        reference.sectors.iter().zip(v.sectors.iter()).find(|(x, y)| x != y).map(|(x, _)| x.0) };
+                    ctx.out.oracle(sd.is_none(), "same-sectors", &sigp(a, b, "sector-differs"),
+                                   &format!("{} first-differing-sector={:?} counts={}/{}", case, sd, reference.sectors.len(), v.sectors.len()));
+                }
+            }
+            // containers without a sector view (PO, 2MG wrapping PO): compare their sector view obtained through
+            // the skew functions with the first container that has a real one
+            if let Some(rv) = views.iter().find(|v| v.sector_view) {
+                for (pn, pv) in &po_views {
+                    if pv.is_empty() { continue; }
+                    let mut sorted = rv.sectors.clone();
+                    sorted.sort();
+                    let mut pvs = pv.clone();
+                    pvs.sort();
+                    let sd = if sorted.len() != pvs.len() { Some([usize::MAX; 3]) } else { sorted.iter().zip(pvs.iter()).find(|(x, y)| x != y).map(|(x, _)| x.0) };
+                    ctx.out.oracle(sd.is_none(), "same-sectors-via-skew", &sigp(&rv.name, pn, "sector-differs"),
+                                   &format!("{} first-differing-sector={:?} counts={}/{}", case, sd, sorted.len(), pvs.len()));
+                }
+            }
+            ctx.out.count_n("hist:blocks-compared", (reference.blocks.len() * (views.len() - 1)) as u64);
+            ctx.out.count_n("hist:sectors-compared", views.iter().skip(1).map(|v| v.sectors.len() as u64).sum());
+            ctx.out.case(case.as_bytes(), nontrivial);
+            if round == 0 { ctx.out.sample(&case); }
+        }
+    }
+}
+
+// ---------------------------------------------------------------------------------------------
+// (c) the real `mkdsk` on every container of a kind: the fresh volumes must agree block for block
+
+struct MkCfg { os: &'static str, kind_str: &'static str, kind: DiskKind, vol: &'static str, targets: Vec<(&'static str, Option<&'static str>, &'static str, &'static str)> }
+
+fn mk_cfgs() -> Vec<MkCfg> {
+    let apple = |os, vol, ts: &[(&'static str, Option<&'static str>, &'static str, &'static str)]| MkCfg { os, kind_str: "5.25in", kind: names::A2_DOS33_KIND, vol, targets: ts.to_vec() };
+    let all525 = [("do", None, "do", "do"), ("po", None, "po", "po"), ("nib", None, "nib", "nib"), ("woz1", None, "woz", "woz1"), ("woz2", None, "woz", "woz2"),
+                  ("2mg", Some("do"), "2mg", "2mg-do"), ("2mg", Some("nib"), "2mg", "2mg-nib")];
+    let nopo: Vec<_> = all525.iter().filter(|t| t.0 != "po").cloned().collect();
+    let mut v = vec![
+        apple("dos33", "254", &nopo), apple("prodos", "VERIF", &all525), apple("pascal", "VERIF", &all525), apple("cpm2", "", &nopo), apple("cpm3", "VERIF", &nopo),
+        MkCfg { os: "dos32", kind_str: "5.25in", kind: names::A2_DOS32_KIND, vol: "254",
+                targets: vec![("d13", None, "d13", "d13"), ("nib", None, "nib", "nib"), ("woz1", None, "woz", "woz1"), ("woz2", None, "woz", "woz2")] },
+        MkCfg { os: "prodos", kind_str: "3.5in-ss", kind: names::A2_400_KIND, vol: "VERIF", targets: vec![("po", None, "po", "po"), ("woz2", None, "woz", "woz2"), ("2mg", Some("po"), "2mg", "2mg-po")] },
+        MkCfg { os: "prodos", kind_str: "3.5in-ds", kind: names::A2_800_KIND, vol: "VERIF", targets: vec![("po", None, "po", "po"), ("woz2", None, "woz", "woz2"), ("2mg", Some("po"), "2mg", "2mg-po")] },
+    ];
+    let ibm3 = vec![("img", None, "img", "img"), ("imd", None, "imd", "imd"), ("td0", None, "td0", "td0")];
+    let ibm2 = vec![("imd", None, "imd", "imd"), ("td0", None, "td0", "td0")];
+    for (ks, k) in [("5.25in-ibm-ssdd8", DiskKind::D525(names::IBM_SSDD_8)), ("5.25in-ibm-ssdd9", DiskKind::D525(names::IBM_SSDD_9)),
+                    ("5.25in-ibm-dsdd8", DiskKind::D525(names::IBM_DSDD_8)), ("5.25in-ibm-dsdd9", DiskKind::D525(names::IBM_DSDD_9)),
+                    ("5.25in-ibm-ssqd", DiskKind::D525(names::IBM_SSQD)), ("5.25in-ibm-dsqd", DiskKind::D525(names::IBM_DSQD)),
+                    ("5.25in-ibm-dshd", DiskKind::D525(names::IBM_DSHD)), ("3.5in-ibm-720", DiskKind::D35(names::IBM_720)),
+                    ("3.5in-ibm-1440", DiskKind::D35(names::IBM_1440)), ("3.5in-ibm-2880", DiskKind::D35(names::IBM_2880))] {
+        v.push(MkCfg { os: "fat", kind_str: ks, kind: k, vol: "VERIF", targets: ibm3.clone() });
+    }
+    for (ks, k) in [("8in", names::IBM_CPM1_KIND), ("8in-trs80", names::TRS80_M2_CPM_KIND), ("8in-nabu", names::NABU_CPM_KIND), ("5.25in-osb-sd", names::OSBORNE1_SD_KIND),
+                    ("5.25in-osb-dd", names::OSBORNE1_DD_KIND), ("5.25in-kayii", names::KAYPROII_KIND), ("5.25in-kay4", names::KAYPRO4_KIND), ("3in-amstrad", names::AMSTRAD_SS_KIND)] {
+        v.push(MkCfg { os: "cpm2", kind_str: ks, kind: k, vol: "", targets: ibm2.clone() });
+        v.push(MkCfg { os: "cpm3", kind_str: ks, kind: k, vol: "VERIF", targets: ibm2.clone() });
+    }
+    v
+}
+
+/// the argument ids `mkdsk` reads (the contract between src/cli.rs and src/commands/mkdsk.rs)
+fn mkdsk_matches(args: &[String]) -> Result<clap::ArgMatches, String> {
+    use clap::{Arg, ArgAction, Command};
+    Command::new("mkdsk")
+        .arg(Arg::new("volume").short('v').long("volume"))
+        .arg(Arg::new("type").short('t').long("type").required(true))
+        .arg(Arg::new("os").short('o').long("os").required(true))
+        .arg(Arg::new("bootable").short('b').long("bootable").action(ArgAction::SetTrue))
+        .arg(Arg::new("kind").short('k').long("kind").default_value("5.25in"))
+        .arg(Arg::new("dimg").short('d').long("dimg").required(true))
+        .arg(Arg::new("wrap").short('w').long("wrap"))
+        .try_get_matches_from(args.iter()).map_err(|e| e.to_string())
+}
+
+/// every image-level block and every physical sector of a fresh volume
+fn image_view(im: &mut Box<dyn DiskImage>, os: &str, kind: &DiskKind) -> (Vec<Result<Vec<u8>, String>>, Vec<([usize; 3], Vec<u8>)>) {
+    let mut addrs: Vec<Block> = Vec::new();
+    match (os, *kind) {
+        ("dos32", _) => for t in 0..35 { for s in 0..13 { addrs.push(Block::D13([t, s])); } },
+        ("dos33", _) => for t in 0..35 { for s in 0..16 { addrs.push(Block::DO([t, s])); } },
+        ("prodos", names::A2_400_KIND) => for b in 0..800 { addrs.push(Block::PO(b)); },
+        ("prodos", names::A2_800_KIND) => for b in 0..1600 { addrs.push(Block::PO(b)); },
+        ("prodos", _) | ("pascal", _) => for b in 0..280 { addrs.push(Block::PO(b)); },
+        ("cpm2", _) | ("cpm3", _) => { let d = dpb::DiskParameterBlock::create(kind); for b in 0..d.user_blocks() { addrs.push(Block::CPM((b, d.bsh, d.off))); } }
+        _ => {}
+    }
+    let blocks = addrs.iter().map(|a| match guarded(|| im.read_block(*a).map_err(errs)) { Ok(Ok(d)) => Ok(d), Ok(Err(e)) => Err(format!("err:{}", e)), Err(p) => Err(format!("panic:{}", panic_site(&p))) }).collect();
+    let sectors = read_all_sectors(im, &scan_of(kind));
+    (blocks, sectors)
+}
+
+fn part_mkdsk(ctx: &mut Ctx, rng: &mut Rng, idx: &mut usize) {
+    for cfg in mk_cfgs() {
+        let _r = rng.fork(*idx as u64);
+        let me = *idx;
+        *idx += 1;
+        if !ctx.out.wants(me) { continue; }
+        if !ctx.tier_thorough && cfg.os == "cpm3" && cfg.kind_str != "5.25in" && me % 3 != 0 { ctx.out.count("mkdsk:skipped-quick"); continue; }
+        let dir = match tempfile::tempdir() { Ok(d) => d, Err(_) => continue };
+        let case = format!("idx={} mkdsk os={} kind={} targets={}", me, cfg.os, cfg.kind_str, cfg.targets.iter().map(|t| t.3).collect::<Vec<_>>().join("+"));
+        let mut views: Vec<(String, Vec<Result<Vec<u8>, String>>, Vec<([usize; 3], Vec<u8>)>)> = Vec::new();
+        for (typ, wrap, ext, label) in &cfg.targets {
+            let path = dir.path().join(format!("v{}-{}.{}", me, label, ext));
+            let mut args: Vec<String> = vec!["mkdsk".into(), "-t".into(), typ.to_string(), "-o".into(), cfg.os.into(), "-k".into(), cfg.kind_str.into(), "-d".into(), path.to_string_lossy().to_string()];
+            if !cfg.vol.is_empty() { args.push("-v".into()); args.push(cfg.vol.into()); }
+            if let Some(w) = wrap { args.push("-w".into()); args.push(w.to_string()); }
+            let made = guarded(|| -> Result<Vec<u8>, String> {
+                let m = mkdsk_matches(&args)?;
+                a2kit::commands::mkdsk::mkdsk(&m).map_err(errs)?;
+                std::fs::read(&path).map_err(|e| e.to_string())
+            });
+            let bytes = match made { Ok(Ok(b)) => b, Ok(Err(e)) => { ctx.out.count(&format!("mkdsk:refused:{}:{}:{}", cfg.os, cfg.kind_str, label)); let _ = e; continue; }
+                                     Err(_) => { ctx.out.count(&format!("mkdsk:panicked:{}:{}:{}", cfg.os, cfg.kind_str, label)); continue; } };
+            let Ok(Ok(mut im)) = guarded(|| a2kit::create_img_from_bytestream(&bytes, Some(ext)).map_err(errs)) else {
+                ctx.out.oracle(false, "mkdsk-image-reloads", &format!("c07/mkdsk-{}/{}/image-does-not-reload", cfg.os, label.to_uppercase()), &case); continue; };
+            let (b, s) = image_view(&mut im, cfg.os, &cfg.kind);
+            views.push((label.to_string(), b, s));
+        }
+        ctx.out.count(&format!("mkdsk:{}", cfg.os));
+        if views.len() < 2 { ctx.out.case(case.as_bytes(), false); continue; }
+        let (rn, rb, rs) = &views[0];
+        for (n, b, s) in views.iter().skip(1) {
+            let sig = |what: &str| format!("c07/mkdsk-{}/{}-vs-{}/{}", cfg.os, rn.to_uppercase(), n.to_uppercase(), what);
+            let bd = if rb.len() != b.len() { Some(usize::MAX) } else { rb.iter().zip(b.iter()).position(|(x, y)| x != y) };
+            ctx.out.oracle(bd.is_none(), "mkdsk-same-blocks", &sig("block-differs"), &format!("{} first-differing-block-index={:?} of {}", case, bd, rb.len()));
+            if !rs.is_empty() && !s.is_empty() {
+                let sd = if rs.len() != s.len() { Some([usize::MAX; 3]) } else { rs.iter().zip(s.iter()).find(|(x, y)| x != y).map(|(x, _)| x.0) };
+                ctx.out.oracle(sd.is_none(), "mkdsk-same-sectors", &sig("sector-differs"), &format!("{} first-differing-sector={:?} counts={}/{}", case, sd, rs.len(), s.len()));
+            }
+        }
+        ctx.out.case(case.as_bytes(), true);
+        ctx.out.sample(&case);
+    }
+}
+
+pub fn run(ctx: &mut Ctx) {
+    let mut rng = Rng::new(ctx.seed);
+    let mut idx = 0usize;
+    ctx.out.max_samples = 8;
+    // a panic of the harness itself (not of guarded a2kit code) must be visible: re-raise with its site
+    let r = guarded(|| {
+        part_functions(ctx, &mut rng, &mut idx);
+        part_addrmaps(ctx, &mut rng, &mut idx);
+        part_histories(ctx, &mut rng, &mut idx);
+        part_mkdsk(ctx, &mut rng, &mut idx);
+    });
+    if let Err(p) = r { eprintln!("c07 harness panicked at {}", p); std::process::exit(3); }
+}
